@@ -10,8 +10,9 @@ import numpy as np
 import vlib
 from props import calsim, c15
 
-THEOREMS = ['Libvna.Cal.' + t for t in ('applyT_scale_invariant', 'applyT_inverts', 'applyU_inverts', 'ab_column_scaling', 'applyT_eq_of_both_satisfy')]
-FILES = ['Props/C01.lean', 'Props/C17.lean']
+THEOREMS = ['Libvna.Cal.' + t for t in ('applyT_scale_invariant', 'applyT_inverts', 'applyU_inverts', 'ab_column_scaling', 'applyT_eq_of_both_satisfy')] + [
+    'Libvna.Order.normal_perm', 'Libvna.Order.ls_row_order', 'Libvna.Order.ls_unique', 'Libvna.Order.order_independent', 'Libvna.QRLoop.qrsolve_order_independent']
+FILES = ['Props/C01.lean', 'Props/C17.lean', 'Props/C17Order.lean', 'Props/C19QR.lean', 'Model/LinAlg.lean']
 
 
 class VecSc(calsim.Scenario):
@@ -403,9 +404,9 @@ def order_noisy(chk, exe, rng, reps):
 def run(chk):
     rng = random.Random(chk.seed * 43 + 17)
     broken = []
-    c15.proof_side(chk, ['Libvna.Props.C17'], THEOREMS, FILES, broken)
+    c15.proof_side(chk, ['Libvna.Props.C17', 'Libvna.Props.C17Order'], THEOREMS, FILES, broken)
     chk.trusted += ['tools/props/calsim.py ground truth; rounding tolerance 1e-8']
-    chk.checker_cmd = 'cd lean && lake build Libvna.Props.C17 && #print axioms'
+    chk.checker_cmd = 'cd lean && lake build Libvna.Props.C17 Libvna.Props.C17Order && #print axioms'
     exe, _ = vlib.build_c()
     quick = chk.tier == 'quick'
     cases = []
